@@ -8,7 +8,7 @@ import warnings
 
 import numpy as np
 
-from mc.harness import guarded
+from mc.harness import HarnessError, guarded
 
 ID = "C19"
 TITLE = "FraudScores is a faithful, validated genuine/fraud view of Scores"
@@ -49,6 +49,8 @@ def work(tier, seed):
     items.append({"labels": True})
     items.append({"label_kinds": True})
     items.append({"wide_dtypes": True})
+    items.append({"nan_range": True})
+    items.append({"no_rng": True})
     return items
 
 
@@ -93,6 +95,78 @@ def _run_label_kinds(ctx):
                     if got_g != want_g or got_f != want_f:
                         ctx.fail("from-labels-splits-by-genuine-label", case, observed=[got_g, got_f], expected=[want_g, want_f])
     ctx.sample({"kind": "label_kinds", "kinds": list(kinds), "patterns": patterns})
+    return None
+
+
+def _run_nan_range(ctx):
+    """Range validation when a class also holds NaN (which sorts last and compares False with everything) or +-inf:
+    ValueError exactly when some score is < 0 or > 1."""
+    from score_analysis.applications.doc_fraud import FraudScores
+
+    al = [0.5, 0.0, 1.0, 1.5, -0.5, math.nan, math.inf, -math.inf, math.nextafter(1.0, 2.0)]
+    combos = [list(c) for n in (1, 2, 3) for c in itertools.product(range(len(al)), repeat=n) if any(math.isnan(al[i]) or math.isinf(al[i]) for i in c)]
+    for gi in combos:
+        g = [al[i] for i in gi]
+        for f in ([0.25], [0.25, math.nan], []):
+            for which in ("genuines", "frauds"):
+                gen, fra = (g, f) if which == "genuines" else (f, g)
+                inv = any(v < 0 or v > 1 for v in gen + fra)
+                case = {"genuines": gen, "frauds": fra, "form": "nan/inf menu"}
+                ctx.state()
+                ctx.tick()
+                ctx.nontrivial()
+                try:
+                    FraudScores(genuines=np.array(gen, dtype=float), frauds=np.array(fra, dtype=float))
+                    raised = None
+                except ValueError as e:
+                    raised = e
+                except Exception as e:  # noqa
+                    ctx.fail("unexpected-exception:construct", case, observed=repr(e), expected="ValueError or object")
+                    continue
+                ctx.outcome(("nan", inv, raised is not None))
+                if inv and raised is None:
+                    ctx.fail("valueerror-iff-out-of-range", case, observed="constructed", expected="ValueError")
+                elif not inv and raised is not None:
+                    ctx.fail("valueerror-iff-out-of-range", case, observed=repr(raised), expected="constructed")
+    ctx.sample({"kind": "nan_range", "alphabet": [str(v) for v in al], "combinations": len(combos)})
+    return None
+
+
+def _run_no_rng(ctx):
+    """
+    Construction and every deterministic query leave the global random stream alone at every size (a view that drew
+    random numbers would make a seeded script give other bootstrap results than the equivalent Scores object):
+    run under the RNG oracle, which records every request, with classes of 5 .. 1,200,000 scores.
+    """
+    from mc import rngtree
+    from score_analysis import Scores
+    from score_analysis.applications.doc_fraud import FraudScores
+
+    for ng, nf in ((5, 7), (300, 1_000_001), (1_200_000, 250), (150, 130)):
+        gen = (np.arange(ng) % 1000) / 1000.0
+        fra = ((np.arange(nf) * 7) % 997) / 1000.0
+        for cls, kw in ((FraudScores, dict(genuines=gen, frauds=fra)), (Scores, dict(pos=gen, neg=fra))):
+            case = {"kind": "no_rng", "class": cls.__name__, "sizes": [ng, nf]}
+            orc = rngtree.Oracle((), 0)  # no request is expected: the first one ends the run
+            state_before = np.random.get_state()[1][:8].tolist()
+            try:
+                with rngtree.owned(orc):
+                    o = cls(**kw)
+                    o.cm(np.array([0.2, 0.5])), o.threshold_at_fnr(0.1), o.threshold_at_topr(0.5), o.eer(), o.auc(), o.swap()
+                    if cls is FraudScores:
+                        o.genuines, o.frauds
+            except (rngtree.UnownedRNG, HarnessError) as e:
+                ctx.fail("deterministic-queries-do-not-draw-random-numbers", case, observed=str(e), expected="no request")
+                continue
+            except Exception as e:  # noqa
+                ctx.fail("unexpected-exception:no-rng", case, observed=repr(e), expected="no exception")
+                continue
+            ctx.state()
+            ctx.tick()
+            ctx.nontrivial()
+            if len(orc.trace) or np.random.get_state()[1][:8].tolist() != state_before:
+                ctx.fail("deterministic-queries-do-not-draw-random-numbers", case, observed=[str(t)[:80] for t in orc.trace[:3]], expected="no request")
+    ctx.sample({"kind": "no_rng", "sizes": [[5, 7], [300, 1000001], [1200000, 250], [150, 130]]})
     return None
 
 
@@ -149,6 +223,10 @@ def run(item, ctx, tier, seed):
         return _run_label_kinds(ctx)
     if item.get("wide_dtypes"):
         return _run_wide_dtypes(ctx)
+    if item.get("nan_range"):
+        return _run_nan_range(ctx)
+    if item.get("no_rng"):
+        return _run_no_rng(ctx)
     if item.get("labels"):
         # label translations are mutually inverse on both enums (and on their string values)
         ctx.state()
